@@ -121,11 +121,38 @@ func genValCase(rt *rapid.T, g *aval.Gen, allFormats bool) valCase {
 	if format == "query-fields" {
 		t = drawType(rt, records)
 	}
-	c := valCase{CorpusSeed: corpusSeed, Type: t.String(), Format: format, Value: g.Value(rt, t, 0)}
+	c := valCase{CorpusSeed: corpusSeed, Type: t.String(), Format: format}
+	if tree := typeOrNil("vt.Tree"); tree != nil && format != "query-fields" && rapid.IntRange(0, 39).Draw(rt, "deep") == 0 {
+		// "nested to any depth": a chain of 10-60 levels through the recursive record (optional field, array item, map value)
+		c.Type, c.Value = tree.String(), deepTree(rt, rapid.IntRange(10, 60).Draw(rt, "levels"))
+	} else {
+		c.Value = g.Value(rt, t, 0)
+	}
 	if rapid.IntRange(0, 3).Draw(rt, "after_failure") == 0 {
 		c.AfterFailure = rapid.IntRange(1, 3).Draw(rt, "failed_entries")
 	}
 	return c
+}
+
+// deepTree builds a vt.Tree value nested the given number of levels, each level reached through one of the three
+// recursive positions of the record.
+func deepTree(rt *rapid.T, levels int) *aval.V {
+	cur := aval.Record().Set("v", aval.Str("leaf"))
+	for i := 0; i < levels; i++ {
+		up := aval.Record().Set("v", aval.Str(""))
+		switch rapid.IntRange(0, 2).Draw(rt, "via") {
+		case 0:
+			up.Set("next", cur)
+		case 1:
+			up.Set("kids", aval.Array(cur))
+		default:
+			m := aval.Map()
+			m.Put("k", cur)
+			up.Set("named", m)
+		}
+		cur = up
+	}
+	return cur
 }
 
 func TestC01RoundTrip(t *testing.T) {
